@@ -6,6 +6,8 @@ import Deb822Verif.Driver.Total
 import Deb822Verif.Driver.Codec
 import Deb822Verif.Driver.Sat
 import Deb822Verif.Driver.Derive
+import Deb822Verif.Driver.Typed
+import Deb822Verif.Driver.TypedDoc
 open Deb822Verif
 
 def dispatch (op : String) (args : List String) : String :=
@@ -16,6 +18,8 @@ def dispatch (op : String) (args : List String) : String :=
     <|> (Driver.Codec.handle op args)
     <|> (Driver.Sat.handle op args)
     <|> (Driver.Derive.handle op args)
+    <|> (Driver.Typed.handle op args)
+    <|> (Driver.TypedDoc.handle op args)
   match r with
   | some s => s
   | none => "bad-op"
